@@ -72,10 +72,16 @@ def gen_case0(rng, malformed=False):
         c["z0"] = z0
     else:
         c["ustar"] = float(rng.uniform(0.08, 0.9))
-    if rng.random() < 0.25:
+    k = rng.random()
+    if k < 0.2:
         # user-chosen stretch / domain height, kept inside the grid's valid range (last zeta < aa)
         c["st"] = float(zm * rng.uniform(1.5, 4.0))
         c["dh"] = float(zm * rng.uniform(1.0, 2.0))
+    elif k < 0.3:
+        # only one of the two given: the other keeps its own default (2 zm each, independently)
+        c["st"] = float(zm * rng.uniform(1.6, 4.0))
+    elif k < 0.4:
+        c["dh"] = float(zm * rng.uniform(1.0, 2.3))
     if malformed:
         k = rng.integers(0, 3)
         if k == 0:
@@ -109,7 +115,18 @@ def o_profiles(c):
                     [c["um"], c["vm"]], [float(u[n]), float(v[n])], tol)
     if not np.all(np.abs(u * c["vm"] - v * c["um"]) <= 1e-9 * absum * np.maximum(np.hypot(u, v), 1e-300)):
         return fail("C09/direction", "wind direction is not constant with height", None, "parallel", "not parallel", 1e-9)
-    if not np.all(u[1:] * c["um"] + v[1:] * c["vm"] > 0):
+    dotp = u[1:] * c["um"] + v[1:] * c["vm"]
+    if not np.all(dotp > 0):
+        # known finding F2 (known_findings.json): in UNSTABLE stratification the implemented profile shape
+        # ln(z/z0) + psi(z/L) is itself negative in a thin layer above the roughness length (the log law omits
+        # psi(z0/L)), so grids that place nodes there return a reversed wind.  Anything else keeps the unlisted key.
+        if c["closure"] in ("MOST", "MOSTM") and c["mol"] < 0:
+            shape = np.log(z[1:] / z[0]) + np.asarray(psi(z[1:] / c["mol"]), dtype=float)
+            if np.array_equal(dotp > 0, shape > 0) and dotp[-1] > 0:
+                k = int(np.sum(dotp <= 0))
+                return fail("C09/reversal/unstable-surface-layer",
+                            "the wind is reversed at the %d lowest node(s) above z0 (z/z0 <= %.4f), where ln(z/z0) + psi(z/L) <= 0 (L = %.1f, z0 = %.3g)"
+                            % (k, float(z[k] / z[0]), c["mol"], float(z[0])), None, "> 0", "<= 0", 0)
         return fail("C09/reversal", "wind reverses with height", None, "> 0", "<= 0", 0)
     if not np.all(Kz > 0):
         return fail("C09/Kz-positive", "vertical diffusivity is not strictly positive", None, "> 0", float(Kz.min()), 0)
@@ -174,6 +191,19 @@ def o_stability(c):
     return None
 
 
+def _load_corpus(name):
+    import json
+    import os
+    p = os.path.join(os.path.dirname(os.path.abspath(__file__)), "..", "..", "corpus", name)
+    try:
+        return json.load(open(p))
+    except OSError:
+        return []
+
+
+C09_CORPUS = _load_corpus("C09.json")      # minimised past failures: run first, every time
+
+
 def run(rng, tier, deep):
     from bldfm.pbl_model import psi, phi
     st = new_stats()
@@ -190,6 +220,8 @@ def run(rng, tier, deep):
         st["branches"]["stab=" + ("unstable" if c["mol"] < 0 else "stable")] = st["branches"].get("stab=" + ("unstable" if c["mol"] < 0 else "stable"), 0) + 1
         items.append((profiles_op(c), real_profiles_canon(c)))
     correspond_scalar(items, st, tol=5e-9)
+    for c in C09_CORPUS:
+        run_oracle(st, o_profiles, dict(c))
     for _ in range(budget(tier, deep, 150, 2000)):
         run_oracle(st, o_profiles, gen_case(rng))
     for _ in range(budget(tier, deep, 60, 800)):
